@@ -531,3 +531,49 @@ theorem same_relative_owner_after_origin_change :
     _ (by decide) (by decide) (by unfold FileNamesOK; decide) (by decide) (by decide) rfl
 
 end HickoryVerif.C20
+
+namespace HickoryVerif.C20
+open HickoryVerif HickoryVerif.ZoneLex HickoryVerif.ZoneParse HickoryVerif.Spec.MasterFile
+
+/-! ## data fields made of "all remaining items, concatenated" (TLSA, SMIMEA, DS)
+
+RFC 6698 §2.2 / RFC 8162 §2 / RFC 4034 §5.3: the hexadecimal data may be divided by white space
+anywhere — on one line, or over parenthesised continuation lines with comments.  The lexer part of
+that is `lex_render` (each piece is an item, a group is its items); the RDATA part is: -/
+
+/-- **split invariance**: the RDATA of a TLSA / SMIMEA / DS entry depends on the data items only
+through their concatenation — re-splitting the hex text at any offsets (odd ones included, into any
+number of pieces) gives the same RDATA, and the same error if it is one. -/
+theorem split_invariance (t : RType) (ht : t = .tlsa ∨ t = .smimea ∨ t = .ds) (a b c : List Nat)
+    (ts ts' : List (List Nat)) (o : Option Name) (h : ts.flatten = ts'.flatten) :
+    rdataFromTokens t (a :: b :: c :: ts) o = rdataFromTokens t (a :: b :: c :: ts') o := by
+  rcases ht with rfl | rfl | rfl <;> (simp only [rdataFromTokens, nextTok, ZR.bind_ok, joinToks, h]; try rfl)
+
+/-- in particular the split form equals the unsplit form -/
+theorem split_eq_unsplit (t : RType) (ht : t = .tlsa ∨ t = .smimea ∨ t = .ds) (a b c : List Nat)
+    (ts : List (List Nat)) (o : Option Name) :
+    rdataFromTokens t (a :: b :: c :: ts) o = rdataFromTokens t [a, b, c, ts.flatten] o :=
+  split_invariance t ht a b c ts [ts.flatten] o (by simp)
+
+/-- ```
+    www 60 TLSA 3 1 1 ( a1b ; odd
+         2c3 d4 )
+    ``` : the data `a1b2c3d4` split at odd offsets over a group with a comment -/
+def zoneTlsaSplit : List SLine :=
+  [ .rr ⟨.name wWWW nWWW, [([32], [54, 48])], ([32], [84, 76, 83, 65]),
+         [.item [32] (.word [51]), .item [32] (.word [49]), .item [32] (.word [49]),
+          .group [32] [([.ws 32], .word [97, 49, 98]),
+                       ([.ws 32, .comment [32, 111, 100, 100], .ws 32], .word [50, 99, 51]),
+                       ([.ws 32], .word [100, 52])] [.ws 32]], ⟨[], none, 0⟩⟩ ]
+
+/-- the split data loads to the bytes `a1 b2 c3 d4` (through `loads_exactly_partial`) -/
+theorem tlsa_split_data_loads :
+    parse (render (zoneTlsaSplit.map SLine.line)) (some exampleCom) =
+      .ok (exampleCom, [ (keyOf nWWW .tlsa, RSet.ofRec .tlsa ⟨nWWW, 1, 60, .tlsa false 3 1 1 [161, 178, 195, 212]⟩) ]) :=
+  loads_exactly_partial exampleCom exampleCom zoneTlsaSplit
+    { origin := some exampleCom, owner := some nWWW, lastTtl := some 60 }
+    [ { owner := nWWW, cls := 1, ttl := 60, typ := 52, origin := some exampleCom,
+        rdata := [[51], [49], [49], [97, 49, 98], [50, 99, 51], [100, 52]] } ]
+    _ (by decide) (by decide) (by unfold FileNamesOK; decide) (by decide) (by decide) rfl
+
+end HickoryVerif.C20
